@@ -558,8 +558,9 @@ func run(c *core.Ctx) {
 	// scheduled parts
 	n := core.NumWorkers()
 	bound := bounds(c)
-	for _, sc := range schedParts {
-		for b := 0; b <= bound; b++ {
+	completed := -1
+	for b := 0; b <= bound && !c.Expired(); b++ {
+		for _, sc := range schedParts {
 			shards := n
 			if b < 2 {
 				shards = 1
@@ -568,11 +569,12 @@ func run(c *core.Ctx) {
 				return []string{sc, fmt.Sprint(b), fmt.Sprint(i), fmt.Sprint(shards)}
 			}, 20*time.Minute)
 			c.CheckShards(outs)
-			if c.ViolationCount() > 0 {
-				break
-			}
+		}
+		if !c.Expired() && c.ViolationCount() == 0 {
+			completed = b
 		}
 	}
+	bound = completed
 	c.Set("bound_completed", bound)
 	sch := c.Count("schedules")
 	c.Set("states", sch+evals)
